@@ -10,7 +10,7 @@ import traceback
 
 from sa.context import Context
 from sa.model import AnalysisError
-from sa.report import Report, finish
+from sa.report import Report, finish, load_known
 
 
 def main(argv: list[str] | None = None) -> int:
@@ -38,8 +38,9 @@ def main(argv: list[str] | None = None) -> int:
         mod.run(ctx, rep)
         ctx.check_resolution_floor()
         rep.analysed = ctx.analysed()
-        if args.tier == "thorough" and not args.no_selftest and \
-                not rep.violations:
+        known = {f["key"] for f in load_known().get("findings", [])}
+        unlisted = [v for v in rep.violations if v.key(pid) not in known]
+        if args.tier == "thorough" and not args.no_selftest and not unlisted:
             from sa.selftest import run_selftests
             run_selftests(pid, mod, rep)
         if args.replay:
